@@ -289,7 +289,7 @@ func hostile(r *vf.Run) {
 		for inc := 0; ; inc++ {
 			logPath := fmt.Sprintf("%s/b%d.log", dir, bi)
 			d, err := proc.Run(proc.Cmd{Spec: fmt.Sprintf("%s|%d|%d|%d", dir, bi, start, inc), LogPath: logPath,
-				Env: []string{"GOMAXPROCS=2"}, StallTimeout: 120 * time.Second})
+				Env: []string{"GOMAXPROCS=1"}, StallTimeout: 120 * time.Second})
 			if err != nil {
 				r.Inconclusive(fmt.Sprintf("cannot start child for batch %d: %v", bi, err))
 				return
@@ -374,7 +374,7 @@ func hostile(r *vf.Run) {
 				}
 			}
 			mu.Lock()
-			secs[fmt.Sprintf("%s/%s/%d", bs[bi].Kind, bs[bi].Cmd, bs[bi].Round)] += ln.Secs
+			secs[fmt.Sprintf("%s/%s/%d/%d", bs[bi].Kind, bs[bi].Cmd, bs[bi].Round, bs[bi].Part)] += ln.Secs
 			if ln.MaxAlloc > maxAlloc {
 				maxAlloc = ln.MaxAlloc
 			}
